@@ -170,7 +170,7 @@ def main():
     out.append(f"* `/repo`: {len(log)} `fix:` commits ({nfixed} `fixed:` lines in `known_findings.json`), {nfind} defects kept as findings, no hook commit.")
     out.append(f"* `seeded/`: {len(rows)} changes that break a property while the 84 pinned tests pass - "
                f"{sum(1 for r in rows if not r[2].startswith('builder'))} from independent sub-agents in five rounds (miss rate of the then-current checks: "
-               "10/42, 21/60, 22/60, 5/42 after the generator sweep, and 0/10 in the short fifth round - C03-12, C08-12, C12-12, C13-12, C14-9, C15-9, C16-12, C17-12, C19-12, C20-12 - run against the final checks) and "
+               "10/42, 21/60, 22/60, 5/42 after the generator sweep, and 0/15 in the short fifth round - C02-12, C03-12, C07-12, C08-12, C09-9, C11-9, C12-12, C13-12, C14-9, C15-9, C16-12, C17-12, C18-9, C19-12, C20-12 - run against the final checks) and "
                f"{sum(1 for r in rows if r[2].startswith('builder'))} mutations written by the sweep builders; all independent ones were re-run against the final checks at the end of the build (every one "
                "is reported, except the two that a repair made harmless: C11-1, C03-9); the builders' mutations were run by their builders after the "
                "sweep, those whose patch touched code changed by a later repair were rebased and re-run.\n")
